@@ -31,7 +31,8 @@ Case == [word |-> word, va |-> va, vb |-> vb, expected |-> Expected]
 Emit == phase = "done" => PrintT(<<"REPLAY", ToJson(Case)>>)
 VA_all == { <<"v">>, <<>>, <<"$","B">>, <<"$","A">>, <<"$","{","B","}">>, <<"a",".","b","*">>, <<"x"," ","y">>, <<"$","1">>, <<"$","?">>, <<"{","A","}">>,
             \* values that look like another expansion: braces, a range, a command substitution (it must not run: vmk leaves a record)
-            <<"{","a",",","b","}">>, <<"x","{","1",".",".","3","}">>, <<"$","(","v","m","k"," ","9"," ","0",")">>, <<"`","v","m","k"," ","9"," ","0","`">> }
+            <<"{","a",",","b","}">>, <<"x","{","1",".",".","3","}">>, <<"$","(","v","m","k"," ","9"," ","0",")">>, <<"`","v","m","k"," ","9"," ","0","`">>,
+            <<"a",">","{","b",",","c","}">> }
 VB_all == { <<"w">>, <<"$","A">>, <<>>, <<"$","{","A","}">> }
 VA_plain == { <<"v">>, <<>>, <<"a",".","b","*">> }
 VB_plain == { <<"w">>, <<>> }
